@@ -54,6 +54,7 @@ func runC14(c *Ctx) error {
 		cases = append(cases, c14Case{Class: "sweep-gap", Window: 400 * time.Millisecond, Goroutines: 2, Junk: 250000, Decorator: i%2 == 1})
 	}
 	cases = append(cases, c14Case{Class: "decorator-batch", Window: 400 * time.Millisecond, Decorator: true})
+	cases = append(cases, c14Case{Class: "default-repository", Window: time.Minute})
 	for i := 0; i < c.Pick(2, 20); i++ {
 		cases = append(cases, c14Case{Class: "decorator-overlap", Window: 50 * time.Millisecond, Keys: 3, Decorator: true})
 		cases = append(cases, c14Case{Class: "refresh", Window: 60 * time.Millisecond, Decorator: i%2 == 1})
@@ -92,6 +93,10 @@ func c14Run(r *tr.Run, cs c14Case, rng *rand.Rand) {
 		return
 	}
 	d := &middleware.Deduplicator{KeyFactory: middleware.NewMessageHasherFromMetadataField("key"), Repository: repo, Timeout: time.Second}
+	if cs.Class == "default-repository" {
+		// no repository given: the Deduplicator makes itself one -- ONE, shared by everything that is wrapped with this Deduplicator
+		d = &middleware.Deduplicator{KeyFactory: middleware.NewMessageHasherFromMetadataField("key"), Timeout: time.Second}
+	}
 	var payloads sync.Map // logical key -> payload
 	payloadOf := func(key string) []byte { return []byte(key) }
 	if cs.Hasher != "" {
@@ -119,6 +124,11 @@ func c14Run(r *tr.Run, cs c14Case, rng *rand.Rand) {
 		invoked.Store(m.UUID, true)
 		return []*message.Message{message.NewMessage("out", nil)}, nil
 	})
+	mw2 := d.Middleware(func(m *message.Message) ([]*message.Message, error) { // a second handler wrapped with the same Deduplicator
+		invoked.Store(m.UUID, true)
+		return []*message.Message{message.NewMessage("out2", nil)}, nil
+	})
+	useMw2 := false
 	inner := scripted.NewPub("inner")
 	var beforeRead func(n int) // (decorator-overlap: the first inner call is held before it looks at its messages)
 	inner.Fn = func(n int, topic string, msgs []*message.Message) error {
@@ -153,7 +163,11 @@ func c14Run(r *tr.Run, cs c14Case, rng *rand.Rand) {
 			_, fw := invoked.Load(id)
 			dup = !fw
 		} else {
-			outs, err := mw(m)
+			wrapped := mw
+			if useMw2 {
+				wrapped = mw2
+			}
+			outs, err := wrapped(m)
 			if err != nil {
 				r.Emit("error", "what", err.Error())
 				return
@@ -190,6 +204,17 @@ func c14Run(r *tr.Run, cs c14Case, rng *rand.Rand) {
 		}
 	}
 	switch {
+	case cs.Class == "default-repository":
+		present("g0", "X") // through the first wrapped handler
+		useMw2 = true
+		present("g0", "X") // through the second one
+		cs.Decorator = true
+		present("g0", "X") // through the publisher decorator
+		present("g0", "Y")
+		cs.Decorator = false
+		present("g0", "Y")
+		useMw2 = false
+		present("g0", "Y")
 	case cs.Class == "decorator-batch":
 		present("g0", "A")
 		presentBatch("g0", []string{"A", "B"})      // the duplicate comes first
